@@ -86,12 +86,12 @@ theorem recv?_some {s s' : St} {w t : Nat} (h : recv? s w t = some s') :
 
 theorem poll?_some {s s' : St} {w t : Nat} (h : poll? s w t = some s') :
     w < s.nw ∧ (s.main w).canPoll = true ∧
-    ((s.stat t = .spawned w ∧ s' = { s with stat := upd s.stat t (.running w (s.body t).steps), started := upd s.started t (s.started t + 1), startedOn := upd s.startedOn t (w :: s.startedOn t) }) ∨
-     (∃ k, s.stat t = .running w (k + 1) ∧ s' = { s with stat := upd s.stat t (.running w k) }) ∨
+    ((s.stat t = .spawned w ∧ s' = { s with stat := upd s.stat t (.running w (s.body t).steps), started := upd s.started t (s.started t + 1), startedOn := upd s.startedOn t (w :: s.startedOn t), woken := upd s.woken t false }) ∨
+     (∃ k, s.stat t = .running w (k + 1) ∧ s' = { s with stat := upd s.stat t (.running w k), woken := upd s.woken t false }) ∨
      (∃ v, s.stat t = .running w 0 ∧ (s.body t).out = .ok v ∧
-        s' = { s with stat := upd s.stat t (.done w), chan := upd s.chan t ((s.chan t).send v), main := resume s.main w (decide (s.main w = .awaiting t)), ended := upd s.ended t (s.ended t + 1), sent := upd s.sent t (s.sent t + 1) }) ∨
+        s' = { s with stat := upd s.stat t (.done w), chan := upd s.chan t ((s.chan t).send v), main := resume s.main w (decide (s.main w = .awaiting t)), ended := upd s.ended t (s.ended t + 1), sent := upd s.sent t (s.sent t + 1), woken := upd s.woken t false }) ∨
      (s.stat t = .running w 0 ∧ (s.body t).out = .panic ∧
-        s' = { s with stat := upd s.stat t (.done w), chan := upd s.chan t (s.chan t).cancel, main := resume s.main w (decide (s.main w = .awaiting t)), ended := upd s.ended t (s.ended t + 1) })) := by
+        s' = { s with stat := upd s.stat t (.done w), chan := upd s.chan t (s.chan t).cancel, main := resume s.main w (decide (s.main w = .awaiting t)), ended := upd s.ended t (s.ended t + 1), woken := upd s.woken t false })) := by
   unfold poll? at h
   split at h
   · rename_i hg
@@ -115,6 +115,13 @@ theorem poll?_some {s s' : St} {w t : Nat} (h : poll? s w t = some s') :
         · cases h
       · cases h
     · cases h
+  · cases h
+
+theorem remoteWake?_some {s s' : St} {t : Nat} (h : remoteWake? s t = some s') :
+    s.stat t ≠ .absent ∧ s' = { s with woken := upd s.woken t true } := by
+  unfold remoteWake? at h
+  split at h
+  · rename_i hg; exact ⟨hg, (Option.some.inj h).symm⟩
   · cases h
 
 theorem die?_some {s s' : St} {w p : Nat} (h : die? s w p = some s') :
@@ -210,6 +217,7 @@ theorem gc_queue (s : St) : (gc s).queue = if freed s = true then [] else s.queu
 @[simp] theorem gc_conc (s : St) : (gc s).conc = s.conc := by rw [gc_eq]; split <;> rfl
 @[simp] theorem gc_sender (s : St) : (gc s).sender = s.sender := by rw [gc_eq]; split <;> rfl
 @[simp] theorem gc_joined (s : St) : (gc s).joined = s.joined := by rw [gc_eq]; split <;> rfl
+@[simp] theorem gc_woken (s : St) : (gc s).woken = s.woken := by rw [gc_eq]; split <;> rfl
 @[simp] theorem gc_joiner (s : St) : (gc s).joiner = s.joiner := by rw [gc_eq]; split <;> rfl
 @[simp] theorem gc_accepted (s : St) : (gc s).accepted = s.accepted := by rw [gc_eq]; split <;> rfl
 @[simp] theorem gc_rejected (s : St) : (gc s).rejected = s.rejected := by rw [gc_eq]; split <;> rfl
@@ -229,6 +237,7 @@ theorem clearExec_chan (s : St) (w t : Nat) :
 @[simp] theorem clearExec_conc (s : St) (w : Nat) : (clearExec s w).conc = s.conc := rfl
 @[simp] theorem clearExec_sender (s : St) (w : Nat) : (clearExec s w).sender = s.sender := rfl
 @[simp] theorem clearExec_joined (s : St) (w : Nat) : (clearExec s w).joined = s.joined := rfl
+@[simp] theorem clearExec_woken (s : St) (w : Nat) : (clearExec s w).woken = s.woken := rfl
 @[simp] theorem clearExec_joiner (s : St) (w : Nat) : (clearExec s w).joiner = s.joiner := rfl
 @[simp] theorem clearExec_accepted (s : St) (w : Nat) : (clearExec s w).accepted = s.accepted := rfl
 @[simp] theorem clearExec_rejected (s : St) (w : Nat) : (clearExec s w).rejected = s.rejected := rfl
@@ -392,6 +401,7 @@ theorem QInv.step {s s' : St} {e : Event} (h : QInv s) (hs : step? s e = some s'
       exact h.setStat (t := t) (by rw [hst]; simp) (by simp) rfl rfl
     · obtain ⟨hst, _, rfl⟩ := hc
       exact h.setStat (t := t) (by rw [hst]; simp) (by simp) rfl rfl
+  | remoteWake t => obtain ⟨_, rfl⟩ := remoteWake?_some hs; exact h.same rfl rfl
   | die w p => obtain ⟨_, _, rfl⟩ := die?_some hs; exact h.same rfl rfl
   | reap w =>
     obtain ⟨p, _, _, rfl⟩ := reap?_some hs
@@ -449,6 +459,11 @@ theorem view_gc_clearExec {s : St} (hq : QInv s) (w t : Nat) :
 /-- the event is a call that brings new work -/
 def Event.external : Event → Bool
   | .dispatch .. | .dispatchBlocking .. => true
+  | _ => false
+
+/-- a wake-up of a task's waker (from any thread): not work, and not bounded in number -/
+def Event.isWake : Event → Bool
+  | .remoteWake _ => true
   | _ => false
 
 theorem step_view {s s' : St} {e : Event} (hq : QInv s) (h : step? s e = some s') (t' : Nat) :
@@ -536,6 +551,7 @@ theorem step_view {s s' : St} {e : Event} (hq : QInv s) (h : step? s e = some s'
         have := TTrans.finishPanic (s.view t') w hst hv
         simpa [St.view, Event.external] using this
       · left; simp [St.view, upd_other _ _ ht]
+  | remoteWake t => obtain ⟨_, rfl⟩ := remoteWake?_some h; left; rfl
   | die w p => obtain ⟨_, _, rfl⟩ := die?_some h; left; rfl
   | reap w =>
     obtain ⟨p, _, _, rfl⟩ := reap?_some h
@@ -1040,6 +1056,7 @@ theorem WInv.step {s s' : St} {e : Event} (h : WInv s) (hq : QInv s) (hs : step?
       exact h.finish hst rfl rfl rfl rfl
     · obtain ⟨hst, _, rfl⟩ := hc
       exact h.finish hst rfl rfl rfl rfl
+  | remoteWake t => obtain ⟨_, rfl⟩ := remoteWake?_some hs; exact h.same rfl rfl rfl rfl
   | die w p => obtain ⟨_, _, rfl⟩ := die?_some hs; exact h.die
   | reap w =>
     obtain ⟨p, _, _, rfl⟩ := reap?_some hs
@@ -1310,6 +1327,9 @@ theorem JInv.step {s s' : St} {e : Event} (h : JInv s) (hw : WInv s) (hs : step?
           (fun x => x) rfl rfl rfl (dropped_upd (by simp)) (by simp) (by simp [hk, Main.failed])
           (Or.inl (by simp [hk, Main.holdsRx]))
       · exact h.same (by simp [resume, hk]) rfl (fun x => x) rfl rfl rfl (dropped_upd (by simp))
+  | remoteWake t =>
+    obtain ⟨_, rfl⟩ := remoteWake?_some hs
+    exact h.same rfl rfl (fun x => x) rfl rfl rfl (fun t o hd => ⟨o, hd⟩)
   | die w p =>
     obtain ⟨hlt, hil, rfl⟩ := die?_some hs
     have hng : (s.main w).gone = false := by cases hm : s.main w <;> simp [hm, Main.inLoop, Main.gone] at hil ⊢
@@ -1487,6 +1507,7 @@ theorem XInv.step {s s' : St} {e : Event} (h : XInv s) (hs : step? s e = some s'
     · obtain ⟨k, _, rfl⟩ := hc; exact h.setStat (t := t) (by simp [widx]; exact hlt) rfl rfl
     · obtain ⟨v, _, _, rfl⟩ := hc; exact h.setStat (t := t) (by simp [widx]; exact hlt) rfl rfl
     · obtain ⟨_, _, rfl⟩ := hc; exact h.setStat (t := t) (by simp [widx]; exact hlt) rfl rfl
+  | remoteWake t => obtain ⟨_, rfl⟩ := remoteWake?_some hs; exact h.same rfl rfl
   | die w p => obtain ⟨_, _, rfl⟩ := die?_some hs; exact h.same rfl rfl
   | reap w =>
     obtain ⟨p, _, _, rfl⟩ := reap?_some hs
@@ -1529,6 +1550,7 @@ theorem NInv.step {s s' : St} {e : Event} (h : NInv s) (hs : step? s e = some s'
     · obtain ⟨k, _, rfl⟩ := hc; exact h.same rfl rfl
     · obtain ⟨v, _, _, rfl⟩ := hc; exact h.same rfl rfl
     · obtain ⟨_, _, rfl⟩ := hc; exact h.same rfl rfl
+  | remoteWake t => obtain ⟨_, rfl⟩ := remoteWake?_some hs; exact h.same rfl rfl
   | die w p => obtain ⟨_, _, rfl⟩ := die?_some hs; exact h.same rfl rfl
   | reap w => obtain ⟨p, _, _, rfl⟩ := reap?_some hs; exact h.same (by simp) (by simp)
   | joinStart => obtain ⟨_, rfl⟩ := joinStart?_some hs; exact h.same (by simp) (by simp)
@@ -1587,6 +1609,7 @@ theorem Reachable.nw_conc {nw : Nat} {conc : Bool} {s : St} (h : Reachable nw co
     · obtain ⟨k, _, rfl⟩ := hc; exact hp
     · obtain ⟨v, _, _, rfl⟩ := hc; exact hp
     · obtain ⟨_, _, rfl⟩ := hc; exact hp
+  | remoteWake t => obtain ⟨_, rfl⟩ := remoteWake?_some hs; exact hp
   | die w p => obtain ⟨_, _, rfl⟩ := die?_some hs; exact hp
   | reap w => obtain ⟨p, _, _, rfl⟩ := reap?_some hs; simpa using hp
   | joinStart => obtain ⟨_, rfl⟩ := joinStart?_some hs; simpa using hp
